@@ -220,6 +220,10 @@ def run_c16(tier):
     recs = [json.loads(l) for l in open(trace)]
     for b in tlcout.tagged_lines(logp, "SHAPEBAD"):
         r = recs[b["i"]]
+        if "payload" in r:
+            findings.append({"kind": "finding", "prop": prop, "what": "law fails: " + b["laws"][0], "site": r.get("site", ""), "collides": False,
+                             "detail": {"payload": r["payload"], "msg": r.get("msg")}})
+            continue
         for law in b["laws"]:
             findings.append({"kind": "finding", "prop": prop, "what": "law fails: " + law, "site": r.get("site", ""),
                              "collides": b["collides"], "detail": {"node": nodes[b["i"] % len(nodes)], "naming": "txt-fwd" if b["i"] < len(nodes) else "num0", "record": {k: r.get(k) for k in ("all", "pub", "priv", "slots", "shape_key", "bij", "back", "msg")}}})
@@ -237,7 +241,8 @@ def run_c16(tier):
                    "Bind Bind, 0/1/2-argument children) x every slot assignment over 4 names incl. repeated and shadowing names = %d nodes; "
                    "11 laws per node judged by TraceShape.tla; distinct = renaming classes (equal reference shapes)" % len(nodes),
            "exhaustive": True, "renaming_classes_spec": res["classes"], "renaming_classes_impl": res["impl_classes"],
-           "nodes_with_name_both_free_and_bound": sum(1 for b in recs if not b.get("panic") and set(b["pub"]) & set(b["priv"])),
+           "nodes_with_name_both_free_and_bound": sum(1 for b in recs if not b.get("panic") and "payload" not in b and set(b["pub"]) & set(b["priv"])),
+           "payload_values_round_tripped": sum(1 for b in recs if "payload" in b),
            "panics": summ["panics"]}
     finish(prop, tier, t0, findings, cov, triggers={"node_collides": lambda f: bool(f.get("collides"))}, assumptions=[
         "language T is produced by the in-repo define_language! (Cargo [patch]); only the laws are demanded, not the particular numbering"])
